@@ -6,6 +6,13 @@ from .common import crash_outcome
 from .runner import Outcome
 
 
+RULE_SUFFIX = (" About a quarter of the cases come from two constructed generators shared by all simulation properties: "
+               "'coincide' (1-2 waiters whose timeout expires at instant d while 1-4 actors grant / cancel / signal / "
+               "interrupt / stop / resume / reprioritise / end the awaited thing at exactly d) and 'crowd' (2-5 waiters of one "
+               "kind and a feeder that serves them with a burst of releases / puts / gets / cancels in one slice); the "
+               "thorough tier adds bigger scenarios (up to 20 processes, scripts up to 40 ops).")
+
+
 def strategy_for(profiles, tier="quick"):
     """profiles: list of (weight, profile name); the thorough tier mixes in bigger scenarios"""
     opts = []
@@ -13,6 +20,10 @@ def strategy_for(profiles, tier="quick"):
         opts += [simgen.scenario(name)] * (2 * w)
         if tier == "thorough":
             opts += [simgen.scenario(name, big=True)] * w
+    # constructed coincidences (several causes for one process on one instant; a burst of enabling
+    # operations for a crowd of waiters): about a quarter of all cases
+    k = max(1, len(opts) // 6)
+    opts += [simgen.coincide()] * k + [simgen.crowd()] * k
     return st.one_of(*opts)
 
 
@@ -30,7 +41,22 @@ def evaluate_family(text, ctx, family, nontrivial, variant="asan"):
     if res.crashed:
         if family == "C10":
             return crash_outcome(res, "sim-crash")
-        # a crash is C10's business; this property judges completed runs only
+        # The crash itself is C10's business. The history up to the last completed event is on record
+        # (the interpreter flushes after every event) and is judged like any other history.
+        keep = [ln for ln in res.lines if ln[:1] in "CRKXBZLPGTUSVHMQ"]
+        while keep and not keep[-1].startswith("S "):
+            keep.pop()          # drop the partial last event
+        res.lines = keep
+        try:
+            a = simtrace.analyze(text, res)
+        except RuntimeError:
+            return Outcome(ok=True, classes=["crashed(judged-by-C10)", "partial-trace-unreadable"])
+        v = a.first(family)
+        if v is not None:
+            detail = "\n".join(["%s %s: %s" % x for x in a.violations[:12]] + ["--- the run later crashed; trace tail ---"]
+                               + res.lines[-60:])
+            return Outcome(ok=False, sig=v[1], msg=v[2] + " (before the run crashed later on)", detail=detail,
+                           classes=sorted(a.classes) + ["crashed(judged-by-C10)"])
         return Outcome(ok=True, classes=["crashed(judged-by-C10)"])
     a = simtrace.analyze(text, res)
     classes = sorted(a.classes)
